@@ -5,6 +5,7 @@ import CasbinVerif.Model.Rbac
 import CasbinVerif.Spec.Mono
 import CasbinVerif.Spec.Perm
 import CasbinVerif.Spec.Mirror
+import CasbinVerif.Spec.Guarded
 /-
   Driver ops for the enforcer state machine (C01, C03, C04, C05, C10, C11, C15, C17).  See
   harness/cmd/corr/enfops.go for the Go side of the same vocabulary.
@@ -89,7 +90,8 @@ structure EnfSt where
   evalTab : List (String × Expr) := []
   custom : List (String × Expr) := []
   enf : Option EnfP := none
-  /-- every management call so far satisfied `Enf.opWF` (the hypothesis of C05.mirror_hist) -/
+  /-- every management call so far satisfied `Enf.opWFg` (the hypothesis of C05.mirror_hist_guarded: nothing is
+      demanded of the two update calls beyond rules of the definition's arity) -/
   histOk : Bool := true
   /-- the filtered file adapter of the case, if it uses one -/
   fa : Option FASt := none
@@ -279,7 +281,7 @@ def enfOp (st : EnfSt) (ts : List String) : Option (EnfSt × String × String ×
       -- a management call: remember whether it satisfied the theorem's hypothesis
       let mgmt (op : MOp) : Option (EnfSt × String × String × Bool) :=
         match ep.applyM op with
-        | some (ep', res) => some ({ st with enf := some ep', histOk := st.histOk && e.opWF op }, showMRes res, "-", true)
+        | some (ep', res) => some ({ st with enf := some ep', histOk := st.histOk && e.opWFg op }, showMRes res, "-", true)
         | none => some ({ st with histOk := false }, "panic", "-", false)
       let hOk := st.histOk && ep.prm.isEmpty && ep.unbound.isEmpty
       match op, rest with
